@@ -8,7 +8,7 @@ META = {
              "length formulas, 'the strict decoders accept exactly the encoder's output', SHA-2 and SHA-3 output lengths and padding (whole blocks, "
              "0x80 + bit length / 0x06..0x80), HMAC = RFC 2104 with a one-block key, ChaCha20-Poly1305 decrypt-after-encrypt = plaintext for every "
              "key/nonce/aad/plaintext. The primitives themselves (SHA-256/384/512/512-256, SHA3-224/256/384/512, HMAC, ChaCha20, Poly1305) are "
-             "reference definitions over N words (FIPS 180-4, FIPS 202, RFC 2104, RFC 8439) validated inside Coq by NIST / RFC 4231 / RFC 8439 / "
+             "reference definitions over N words (FIPS 180-4, FIPS 202, RFC 2104, RFC 8439) validated inside Coq (C37/Vectors.v) by NIST / RFC 4231 / RFC 8439 / "
              "RFC 4648 test vectors: the vectors are tests, not theorems. The model is tied to the code by running hex_bytes/2, chars_base64/3, "
              "chars_utf8bytes/2, crypto_data_hash/3 and crypto_data_encrypt/6 on generated inputs (block boundaries, non-ASCII, both encodings, HMAC "
              "keys shorter/equal/longer than the block) and comparing the output bytes with the model inside Coq (vm_compute)."),
@@ -23,7 +23,7 @@ META = {
                   "sha_output_length, sha_padding_block_multiple, sha3_padding_block_multiple, hmac_definition, aead_encrypt_decrypt) over an "
                   "impl-mirror (hex, UTF-8) / reference (Base64, SHA-2, SHA-3, HMAC, ChaCha20-Poly1305) model + differential correspondence evaluated in Coq"),
     "design_ref": "DESIGN.md section 8, C37",
-    "coq_targets": ["C37/Props.vo"],
+    "coq_targets": ["C37/Props.vo", "C37/Vectors.vo"],
     "coq_dirs": ["C37"],
     "props": "C37/Props.v",
     "trusted_base": ["Coq 8.16.1 kernel, vm_compute (no native_compute)", "harness/vrun + tools/vlib (correspondence)",
@@ -516,6 +516,28 @@ def run_queries(ctx, queries, tag, per_job=30):
     return out
 
 
+def case_cost(c):
+    """Rough relative cost of evaluating the model on a case (used only to spread the work evenly over the coqc processes)."""
+    if c["kind"] == "hash":
+        alg, enc, key, codes = c["ident"]
+        B = ALGS[alg][1]
+        blocks = len(codes) * (1 if enc == "octet" else 2) // B + 1 + (0 if key is None else 3 + len(key) // B)
+        return 0.3 + blocks * (1.0 if B == 64 else 1.6)
+    if c["kind"] == "hash3":
+        return 0.3 + 3.0 * (len(c["ident"][2]) // (200 - 2 * SHA3[c["ident"][0]]) + 1)
+    return 0.2 + c["size"] / 300.0
+
+
+def balance(items, k):
+    """Order the items so that consecutive chunks of ceil(n/k) have about the same total cost (last field of an item)."""
+    order = sorted(items, key=lambda t: -t[-1])
+    bins = [[] for _ in range(k)]
+    for j, t in enumerate(order):
+        r, q = divmod(j, k)
+        bins[q if r % 2 == 0 else k - 1 - q].append(t)      # boustrophedon dealing
+    return [t for b in bins for t in b]
+
+
 def describe(c):
     if c["kind"] == "hash":
         alg, enc, key, codes = c["ident"]
@@ -574,31 +596,6 @@ def run(ctx):
                                  "input": c["query"][:2000], "impl": json.dumps(back)[:500], "spec": json.dumps(list(c["post"][1]))[:500], "property_fails": True})
         (heavy if c["kind"] in ("hash", "hash3") else light).append((i, expr))
 
-    bad = []
-    for group, chunk, tag in ((light, 120, "cases"), (heavy, ctx.scale(12, 40), "hashcases")):
-        if not group:
-            continue
-        b, errs = core.coq_eval_bools(ctx.prop, IMPORTS, [e for _, e in group], chunk=chunk, timeout=1500, tag=tag)
-        bad += [group[j][0] for j in b]
-        tie_breaks += [{"kind": "coq-eval", "what": "model evaluation shard failed", "detail": t} for _, t in errs]
-    reported = {}
-    for i in sorted(bad, key=lambda i: len(cases[i]["query"])):
-        c = cases[i]
-        key = "%s:%s:%s" % (c["kind"], describe(c), "valid-input" if c["valid"] else "invalid-input")
-        if reported.get(key, 0) >= 3:
-            continue
-        reported[key] = reported.get(key, 0) + 1
-        spec = core.coq_eval_show(ctx.prop, IMPORTS, spec_expr(c))
-        rec = {"key": key, "what": "implementation output differs from the model", "input": c["query"][:3000],
-               "impl": json.dumps(c["outcome"])[:1500], "spec": spec[:1500]}
-        if c["valid"]:
-            rec["property_fails"] = True
-            failures.append(rec)
-        else:
-            # not a result the property text fixes (rejected / replaced input): the mirrored behaviour drifted
-            tie_breaks.append(dict(rec, kind="model-mismatch",
-                                   what="behaviour on malformed input differs from the mirrored model (lenient UTF-8 decoding / strict Base64 / hex errors)"))
-
     # ---- side cases
     side_n = {"hashlib": 0, "hashlib_skipped": 0, "encdec": 0, "encdec_model_compared": 0}
     side_exprs = []
@@ -608,14 +605,14 @@ def run(ctx):
             o = outcome(a, "Hc")
             ok_shape = o[0] == "ok" and len(o[1]) == 2 * s["dlen"] and all(chr(x) in "0123456789abcdef" for x in o[1])
             if not ok_shape:
-                failures.append({"key": "hash-unmodelled:%s:shape" % s["alg"], "what": "digest is not 2*length lower-case hex characters",
+                failures.append({"key": "hash:%s:shape" % s["alg"], "what": "digest is not 2*length lower-case hex characters",
                                  "input": s["query"][:2000], "impl": json.dumps(o)[:400], "spec": "%d hex characters" % (2 * s["dlen"]), "property_fails": True})
             elif s["expect"] is None:
                 side_n["hashlib_skipped"] += 1
             else:
                 side_n["hashlib"] += 1
                 if o[1] != s["expect"]:
-                    failures.append({"key": "hash-unmodelled:%s:hashlib" % s["alg"], "what": "digest differs from Python hashlib (oracle outside the Coq model)",
+                    failures.append({"key": "hash:%s:differs-from-hashlib" % s["alg"], "what": "digest differs from Python hashlib (oracle outside the Coq model)",
                                      "input": s["query"][:2000], "impl": "".join(map(chr, o[1])), "spec": "".join(map(chr, s["expect"])), "property_fails": True})
         else:
             side_n["encdec"] += 1
@@ -636,16 +633,39 @@ def run(ctx):
                                  "(or the ciphertext length / tag length / tamper rejection is wrong)", "input": s["query"][:3000],
                                  "impl": json.dumps(fa)[:800], "spec": "Back = plaintext codes, Len = %d, 16-byte tag, tampered tag/key/aad rejected" % s["nbytes"],
                                  "property_fails": True})
-    if side_exprs:
-        b, errs = core.coq_eval_bools(ctx.prop, IMPORTS, [e for _, e in side_exprs], chunk=ctx.scale(4, 12), timeout=1500, tag="aeadcases")
-        tie_breaks += [{"kind": "coq-eval", "what": "model evaluation shard failed", "detail": t} for _, t in errs]
-        side_n["encdec_model_compared"] = len(side_exprs)
-        for j in b[:5]:
-            sc, e = side_exprs[j]
-            failures.append({"key": "encrypt:%s:ciphertext-or-tag" % (sc["enc"] or "default"), "what": "ciphertext or tag of crypto_data_encrypt differs from the RFC 8439 model",
-                             "input": sc["query"][:3000], "impl": e[-1500:], "spec": core.coq_eval_show(ctx.prop, IMPORTS, "data_encrypt %s %s %s %s %s" % (
-                                 coq_bool(sc["enc"] == "octet"), coq_list(sc["key"]), coq_list(sc["iv"]), coq_list(sc["aad"]), coq_list(sc["plain"])))[:1500],
-                             "property_fails": True})
+    # ---- one balanced Coq evaluation for everything (the start-up of a coqc process costs seconds: few, even shards)
+    todo = [("case", i, e, case_cost(cases[i])) for i, e in light + heavy]
+    todo += [("aead", sc, e, 2.0 + len(sc["plain"]) / 40.0) for sc, e in side_exprs]
+    k = max(core.NPROC, -(-len(todo) // 500))
+    todo = balance(todo, k)
+    bad_idx, errs = core.coq_eval_bools(ctx.prop, IMPORTS, [t[2] for t in todo], chunk=max(1, -(-len(todo) // k)), timeout=2500, tag="cases")
+    tie_breaks += [{"kind": "coq-eval", "what": "model evaluation shard failed", "detail": t} for _, t in errs]
+    side_n["encdec_model_compared"] = len(side_exprs)
+    for j in [j for j in bad_idx if todo[j][0] == "aead"][:5]:
+        sc, e = todo[j][1], todo[j][2]
+        failures.append({"key": "encrypt:%s:ciphertext-or-tag" % (sc["enc"] or "default"), "what": "ciphertext or tag of crypto_data_encrypt differs from the RFC 8439 model",
+                         "input": sc["query"][:3000], "impl": e[-1500:], "spec": core.coq_eval_show(ctx.prop, IMPORTS, "data_encrypt %s %s %s %s %s" % (
+                             coq_bool(sc["enc"] == "octet"), coq_list(sc["key"]), coq_list(sc["iv"]), coq_list(sc["aad"]), coq_list(sc["plain"])))[:1500],
+                         "property_fails": True})
+    bad = [todo[j][1] for j in bad_idx if todo[j][0] == "case"]
+    reported = {}
+    for i in sorted(bad, key=lambda i: len(cases[i]["query"])):
+        c = cases[i]
+        key = "%s:%s:%s" % (c["kind"], describe(c), "valid-input" if c["valid"] else "invalid-input")
+        if reported.get(key, 0) >= 3:
+            continue
+        reported[key] = reported.get(key, 0) + 1
+        spec = core.coq_eval_show(ctx.prop, IMPORTS, spec_expr(c))
+        rec = {"key": key, "what": "implementation output differs from the model", "input": c["query"][:3000],
+               "impl": json.dumps(c["outcome"])[:1500], "spec": spec[:1500]}
+        if c["valid"]:
+            rec["property_fails"] = True
+            failures.append(rec)
+        else:
+            # not a result the property text fixes (rejected / replaced input): the mirrored behaviour drifted
+            tie_breaks.append(dict(rec, kind="model-mismatch",
+                                   what="behaviour on malformed input differs from the mirrored model (lenient UTF-8 decoding / strict Base64 / hex errors)"))
+
     t_coq = time.time() - t0 - t_impl
     dist["side_cases"] = side_n
     dist["not_covered_by_model"] = sorted(UNMODELLED)
